@@ -836,6 +836,10 @@ def replay_group(job):
             if s1 == "raises":
                 res.append(("violation", f"raises:{name}:{r1.split(':')[0]}", dict(detail, error=r1), key))
                 continue
+            if label == "traj" and name in ("nn", "cut", "cuttype", "gr"):
+                rec = trace_record(name, base_cfg, cfg2, it["word"], r0, r1, ctx)
+                if rec is not None:
+                    res.append(("trace", rec, {"input": ident, "observable": name, "word": it["word"]}, key))
             out = Cmp()
             try:
                 CMP[name](r0, r1, act, ctx, out)
@@ -850,6 +854,47 @@ def replay_group(job):
             elif out.checked:
                 res.append(("ok", None, {"input": ident, "observable": name, "word": word_kinds(it["word"]), "compared": out.checked}, key))
     return res
+
+
+def gr_counts(df, cfg):
+    """abstraction function: the integer pair counts behind a g(r) table (column order of PairHist!ColSeq: total,
+    like pairs, unlike pairs), with a closeness check; None when a value is not an integer count"""
+    S = float(cfg["S"])
+    d = cfg["d"]
+    F = cfg["frames"].shape[0]
+    V = float(np.prod(np.diag(np.asarray(cfg["H"], dtype=float)))) / S ** d
+    types = np.asarray(cfg["types"])
+    n = len(types)
+    K = len(cfg["dia"])
+    cnt = [int((types == a + 1).sum()) for a in range(K)]
+    r = df["r"].values
+    w = cfg["wn"] / S
+    cd = 4.0 / 3.0 if d == 3 else 1.0
+    shell = cd * math.pi * ((r + w / 2) ** d - (r - w / 2) ** d)
+    cols = [("gr", n * n / 2.0)]
+    if 2 <= K <= 5:
+        cols += [(f"gr{a + 1}{a + 1}", cnt[a] * cnt[a] / 2.0) for a in range(K)]
+        cols += [(f"gr{a + 1}{b + 1}", float(cnt[a] * cnt[b])) for a in range(K) for b in range(a + 1, K)]
+    out = []
+    for name, pairs in cols:
+        if name not in df.columns:
+            return None
+        c = df[name].values * F * shell * pairs / V
+        if np.any(np.abs(c - np.rint(c)) > 1e-5 * np.maximum(1.0, np.abs(c))):
+            return None
+        out.append([int(x) for x in np.rint(c)])
+    return out
+
+
+def trace_record(name, cfg, cfg2, word, r0, r1, ctx):
+    if name == "gr":
+        b, i = gr_counts(r0, cfg), gr_counts(r1, cfg2)
+        if b is None or i is None or len(r0) != len(r1):
+            return None       # left to the direct comparison (reports the clause)
+        return {"op": "hist", "K": len(cfg["dia"]), "word": word, "base": b, "img": i,
+                "skip": sorted(k + 1 for k in ctx["bins"] if 0 <= k < len(r0))}
+    return {"op": "sets", "N": len(cfg["types"]), "word": word, "base": r0[0], "img": r1[0],
+            "skip": sorted(i + 1 for i in ctx[name][0])}
 
 
 def _jsonable(d):
@@ -868,10 +913,12 @@ def _jsonable(d):
     return {k: conv(v) for k, v in d.items()}
 
 
-def collect(chk, results, covered):
+def collect(chk, results, covered, trace):
     for group in results:
         for verdict, clause, detail, key in group:
-            if verdict == "ok":
+            if verdict == "trace":
+                trace.append((clause, detail, key))
+            elif verdict == "ok":
                 covered.add(key[1:])
                 chk.ok(key, sample=detail)
             elif verdict == "tie":
@@ -1142,7 +1189,21 @@ def run(tier, replay=None):
         shutil.rmtree(tmp, ignore_errors=True)
     tjobs = traj_jobs(loaded, t.cases, tier, chk)
     results = common.pmap(replay_group, jobs + tjobs, chunksize=1)
-    collect(chk, results, covered)
+    trace = []
+    collect(chk, results, covered, trace)
+    # ---- direction B: the recorded discrete outputs (neighbour lists, pair counts) of the trajectory runs are
+    # accepted or rejected by TraceSymmetry.tla, which re-derives the permutation and the species map itself
+    if trace:
+        recs = [t[0] for t in trace]
+        res, rejects = common.validate_trace_all("TraceSymmetry", recs, max_rejects=5)
+        chk.add_tlc(res, "TraceSymmetry (direction B)")
+        rejected = {i for i, _ in rejects}
+        for i, clause in rejects:
+            chk.violation("trace:" + clause, trace[i][1])
+        for i, t in enumerate(trace):
+            if i not in rejected:
+                chk.ok(("B",) + tuple(t[2][1:]), sample=None)
+        chk.extra["trace_records"] = len(recs)
     chk.extra["observable_x_generators_covered"] = len(covered)
     chk.extra["pairs_single_generator"] = sorted({f"{o}:{k}" for (o, k) in covered if "+" not in k})
     chk.exhaustive = not quick
